@@ -118,7 +118,7 @@ func (r *Run) execute() *Run {
 			}()
 		}
 		want := cfg.Msgs[1-i]
-		if want > 0 || cfg.RecvForever {
+		if (want > 0 || cfg.RecvForever) && !cfg.NoRecv[i] {
 			wg.Add(1)
 			go func() {
 				defer wg.Done()
